@@ -36,6 +36,9 @@ struct G<'a> {
     centre: u32,
     calls: Vec<PyCall>,
     snaps: usize,
+    /// whale volumes still available per side [bid, ask] in units of 2^30 (0 = ordinary volumes only); at most 3 * 2^30
+    /// per side, so side totals and per-step traded volume stay below 2^32
+    whale: [u8; 2],
     depth: u32,
 }
 
@@ -50,6 +53,12 @@ impl<'a> G<'a> {
         p * self.tick
     }
     fn vol(&mut self, bid: bool) -> u32 {
+        let k = if bid { 0 } else { 1 };
+        if self.whale[k] > 0 && self.r.chance(0.4) {
+            let units = if self.whale[k] >= 2 && self.r.chance(0.5) { 2 } else { 1 };
+            self.whale[k] -= units;
+            return (units as u32) << 30;
+        }
         // asymmetric by construction: bid and ask volumes come from disjoint ranges
         if bid {
             self.r.range(1, 10) as u32
@@ -134,7 +143,7 @@ fn book_script(r: &mut SimRng) -> Vec<PyCall> {
     let centre = r.range(20, 100_000) as u32;
     let t0 = *r.pick(&[0u64, 5, 1 << 40, (1 << 62) + 17]);
     let trading = !r.chance(0.15);
-    let mut g = G { r, m: Model::new(t0, tick, trading, Tie::Fifo), tick, centre, calls: vec![], snaps: 0, depth: 5 };
+    let mut g = G { r, m: Model::new(t0, tick, trading, Tie::Fifo), tick, centre, calls: vec![], snaps: 0, whale: [0, 0], depth: 5 };
     let o = "b";
     if g.r.chance(0.15) {
         // constructor with an out-of-range integer first: must raise and create nothing
@@ -286,11 +295,12 @@ fn book_script(r: &mut SimRng) -> Vec<PyCall> {
 fn env_script(r: &mut SimRng) -> Vec<PyCall> {
     let tick = r.range(1, 10) as u32;
     let centre = r.range(20, 100_000) as u32;
-    let t0 = *r.pick(&[0u64, 5, 1 << 40]);
+    // (clock values and step sizes beyond 2^53 - not representable in a double - are ordinary u64 arguments)
+    let t0 = *r.pick(&[0u64, 5, 1 << 40, (1 << 53) + 1, 1_700_000_000_123_456_789, (1 << 62) + 17]);
     let seed = r.next();
-    let step = *r.pick(&[100u64, 1000, 1_000_000]);
+    let step = *r.pick(&[100u64, 1000, 1_000_000, 1_000_000, (1 << 53) + 1]);
     let trading = !r.chance(0.1);
-    let mut g = G { r, m: Model::new(t0, tick, trading, Tie::Fifo), tick, centre, calls: vec![], snaps: 0, depth: 5 };
+    let mut g = G { r, m: Model::new(t0, tick, trading, Tie::Fifo), tick, centre, calls: vec![], snaps: 0, whale: [0, 0], depth: 5 };
     let o = "e";
     if g.r.chance(0.15) {
         let a = match g.r.below(4) {
@@ -303,7 +313,7 @@ fn env_script(r: &mut SimRng) -> Vec<PyCall> {
     }
     g.calls.push(PyCall { k: "new_env".into(), o: o.into(), m: String::new(), a: vec![json!(seed), json!(t0), json!(tick), json!(step), json!(trading)] });
     let mut gen_rng = SeamRng::passthrough(seed);
-    let steps = g.r.range(1, 12);
+    let steps = if step > 1 << 50 { g.r.range(1, 4) } else { g.r.range(1, 12) };
     let mut trading_now = trading;
     // pending instructions for the generator's own book-keeping: (kind, id, p, v); kind 0 new 1 cancel 2 modify
     for _ in 0..steps {
@@ -385,12 +395,29 @@ fn layout_script(r: &mut SimRng) -> Vec<PyCall> {
     };
     let seed = r.next();
     let step = 1000u64;
-    let mut g = G { r, m: Model::new(0, tick, true, Tie::Fifo), tick, centre, calls: vec![], snaps: 0, depth: 13 };
+    let mut g = G { r, m: Model::new(0, tick, true, Tie::Fifo), tick, centre, calls: vec![], snaps: 0, whale: [0, 0], depth: 13 };
     let ctor = vec![json!(seed), json!(0), json!(tick), json!(step), json!(true)];
     g.calls.push(PyCall { k: "new_env".into(), o: "e".into(), m: String::new(), a: ctor.clone() });
     g.calls.push(PyCall { k: "new_numpy".into(), o: "n".into(), m: String::new(), a: ctor });
+    if g.r.chance(0.1) {
+        // whale layouts: a few orders of 2^30 / 2^31 (recorded per-level series whose sums pass 2^32 within a few steps)
+        g.whale = [3, 3];
+    }
     let steps = g.r.range(1, 8);
     for st in 0..steps {
+        // idle steps: nothing submitted at all (the book, and with it every level, stays as it is; the step's traded
+        // volume must read 0)
+        if st > 0 && g.r.chance(if g.whale != [0, 0] || g.m.orders.iter().any(|o| o.o.vol >= 1 << 30) { 0.45 } else { 0.15 }) {
+            g.calls.push(call("e", "step", vec![]));
+            g.calls.push(call("n", "step", vec![]));
+            for m in ["level_1_data_array", "level_2_data_array", "get_market_data"] {
+                g.calls.push(call("e", m, vec![]));
+            }
+            for m in ["level_1_data", "level_2_data", "get_market_data"] {
+                g.calls.push(call("n", m, vec![]));
+            }
+            continue;
+        }
         // some steps carry nothing but modifications of resting orders (StepEnv only: the numpy API has no modify)
         let n_so_far = g.m.orders.len();
         if st > 0 && n_so_far > 0 && g.r.chance(0.3) {
